@@ -53,7 +53,7 @@ func (ck *checker) sdbPart() {
 	if c.Quick() {
 		specs = []spec{{8, 2, 8, 12, 8, 12, 5}, {40, 3, 30, 15, 30, 6, 6}, {300, 4, 100, 10, 150, 1, 8}}
 	} else {
-		specs = []spec{{8, 2, 8, 20, 8, 120, 5}, {40, 3, 30, 25, 30, 60, 8}, {300, 4, 100, 20, 150, 12, 10}, {1000, 6, 400, 15, 500, 2, 12}}
+		specs = []spec{{8, 2, 8, 20, 8, 60, 5}, {40, 3, 30, 25, 30, 30, 8}, {300, 4, 100, 20, 150, 6, 10}, {1000, 6, 400, 15, 500, 1, 12}}
 	}
 	type task struct {
 		s  spec
